@@ -7,7 +7,6 @@ import (
 	"go/token"
 	"go/types"
 	"sort"
-	"strings"
 
 	"golang.org/x/tools/go/ssa"
 
@@ -805,10 +804,9 @@ func init() {
 			"(E6.treat-as-withdraw-flow) the treat-as-withdraw verdict is what every route built from the message receives as its withdraw flag; (E6.session-options) the error-handling regime and peer-type flags the receive path consults are refreshed on every path when a session is established. Also: (E4.error-code-kinds) code constants are only used as codes and subcode constants as subcodes in comparisons and constructors; (E5.next-hop-validity) the NEXT_HOP refusal condition over all 16 valuations of its four tests. (E4.case-ratchet) against a committed baseline, no switch of the code this property is anchored in has lost a named case. (E6.call-ratchet) against a committed baseline, no function of that code has stopped calling (directly or through helpers) a non-trivial callee it called on the reviewed tree.",
 		Not: "That each decoder classifies each malformation correctly, NOTIFICATION code/subcode values, and the absence of malformed attributes on installed routes for all inputs are value-level and not decided.",
 		Run: func(c *Ctx) {
+			c.ruleRatchets("C06")
 			c.ruleErrorCodeKinds("E4.error-code-kinds", []string{"pkg/packet/bgp", "pkg/server"}, 40)
 			c.ruleNextHopValidity("E5.next-hop-validity")
-			c.ruleCaseRatchet("E4.case-ratchet", []string{"pkg/packet/bgp"}, func(f string) bool { return strings.HasSuffix(f, "validate.go") }, "baselines/switches.json", 3)
-			c.ruleCallRatchet("E6.call-ratchet", []string{"pkg/packet/bgp"}, func(f string) bool { return strings.HasSuffix(f, "validate.go") }, "baselines/calls.json", 3)
 			c.ruleRFC7606()
 			c.ruleStrongestWins()
 			c.ruleDiscardDropped()
